@@ -92,10 +92,11 @@ Definition recv_conn (W : nat) (lease full est : bool) (s : rstate) (w : wire) :
   if negb est && is_warning (disp_content w) then (s', filter (fun o => negb (is_err o)) os) else (s', os).
 
 (* [neg]: the endpoint is still in the dual-stack version negotiation loop (negotiateVersionServer /
-   negotiateVersionClient -> readAndBufferNoFSM): classifyReadLoopError is not consulted there, EVERY error of
-   processIncomingPacket - a warning alert included - ends the handshake *)
+   negotiateVersionClient -> readAndBufferNoFSM).  Since abcaac6 that loop consults classifyReadLoopError as
+   well: what the regular read loop ignores before establishment (non-fatal alerts) is ignored there too;
+   every other error still ends the handshake.  The endpoint is by definition not established. *)
 Definition recv_conn_neg (W : nat) (lease full neg est : bool) (s : rstate) (w : wire) : rstate * list out :=
-  if neg then recv_fb W lease full s w else recv_conn W lease full est s w.
+  recv_conn W lease full (if neg then false else est) s w.
 
 Definition recv_rec (W : nat) (full est : bool) (s : rstate) (r : drec) : rstate * list out :=
   match r with
